@@ -41,6 +41,8 @@ class StaticCase:
         # (the same physical equation of state whatever the file order: equilibrium just below the largest volume, bulk modulus k0 there)
         veq = float(self.vol.max()) / (1.0 + 2.0 * veq_f) ** 1.5
         self.e0, self.c2, self.f0 = -rng.uniform(50, 300), 4.5 * k0 * veq * (veq / self.v0) ** (4.0 / 3.0), float(eulerian(self.v0, veq))
+        if rng.random() < 0.3:
+            self.e0 = 0.0                       # energies given relative to the minimum (the zero of energy is a convention)
         # a cubic term in half of the cases: then the data are not their own second-order fit, and a fit of another order shows
         self.c3 = float(self.c2 * rng.uniform(-1.5, 1.5)) if rng.random() < 0.5 else 0.0
         self._coef = None
